@@ -225,7 +225,9 @@ func actionCodeReplaceTs(vnode *parser.RootVistor,
 	}
 	strComment = fmt.Sprintf(strComment,
 		fmt.Sprintf("%s -> %s\n %s\n",
-			leftPartString, rightPartString, oneRule.ActionCode))
+			leftPartString, rightPartString,
+			// a comment inside the action must not end this comment
+			strings.ReplaceAll(oneRule.ActionCode, "*/", "* /")))
 
 	str := oneRule.ActionCode
 	str = strings.ReplaceAll(str, "$$",
